@@ -39,17 +39,16 @@ Envs == {e \in [app : Apps, catch : Catching, verb : Verbs, line : MCLines, pre 
            ~(e.line = "nosuch" /\ e.app = "default")}
 
 Init == \E e \in Envs : st = Start(e)
-Move(ph) == st.phase = ph /\ st' = Step(st)
-CreateIO == Move("start")
-PreResolve == Move("ioReady")
-Resolve == Move("preResolved")
+CreateIO == st.phase = "start" /\ st' = Step(st)
+PreResolve == st.phase = "ioReady" /\ st' = Step(st)
+Resolve == st.phase = "preResolved" /\ st' = Step(st)
 PreHandle == st.phase = "resolved" /\ st.li <= Len(st.env.listeners) /\ st' = Step(st)
 PreHandleEnd == st.phase = "resolved" /\ st.li > Len(st.env.listeners) /\ st' = Step(st)
-InvokeHandler == Move("preHandled")
-Normalise == Move("handled")
-Catch == Move("caught")
-Report == Move("reported")
-Return == Move("returning")
+InvokeHandler == st.phase = "preHandled" /\ st' = Step(st)
+Normalise == st.phase = "handled" /\ st' = Step(st)
+Catch == st.phase = "caught" /\ st' = Step(st)
+Report == st.phase = "reported" /\ st' = Step(st)
+Return == st.phase = "returning" /\ st' = Step(st)
 Next == CreateIO \/ PreResolve \/ Resolve \/ PreHandle \/ PreHandleEnd \/ InvokeHandler \/ Normalise \/ Catch \/ Report \/ Return
 Spec == Init /\ [][Next]_st /\ WF_st(Next)
 
